@@ -397,6 +397,23 @@ theorem preparsed_resume_within_bound (g : Graph) (hr : rankedB g = true) (hsym 
     (out : Outcome) (fuel : Nat) (hf : bound g ≤ fuel) : resume g s w out fuel = resume g s w out (bound g) :=
   resume_fuel g (depth g) (rankedB_sound hr) (edgeSymB_sound hsym) ncls store hcls s h (explored_of_noFlat hflat s) w out fuel hf
 
+open I2N.Trav.Term in
+/-- **Full termination of dry runs.**  Pre-parsed acyclic graph, every node a dry-run node, the root without parents,
+at most one node per class concerns the worker (`classInjB`; real graphs: one copy per class and worker).  Then the
+first scheduler step of the worker — from the initial state, with any fuel `≥ bound g` — is its WHOLE traversal: one
+block without suspension and without exception that ends with the exit event and leaves the worker `done`.
+(Beyond `loop_terminates` this needs the DFS invariant "the root is cleanup-ready only when the path is `[root]`",
+`DryInv`: the child of the root at position one is not dropped while the worker is below it.) -/
+theorem dry_run_terminates (g : Graph) (hr : rankedB g = true) (hsym : edgeSymB g = true) (hflat : noFlatB g = true)
+    (w : Nat) (hw : w < g.workers.length) (hinj : classInjB g w = true) (hroot : (g.node g.root).setup = [])
+    (hdry : ∀ n, n < g.nodes.length → (g.node n).dryRun = true)
+    (ncls : Nat) (hcls : ∀ n, n < g.nodes.length → (g.node n).cls < ncls)
+    (store : List (String × List (String × String))) (fuel : Nat) (hf : bound g ≤ fuel) :
+    ∃ s' evs', resume g (initState g ncls store) w ⟨none, 0⟩ fuel = (s', evs' ++ [Event.exit (g.worker w).id]) ∧
+      (s'.wd w).pc = .done :=
+  dry_run_one_block g (depth g) (rankedB_sound hr) (edgeSymB_sound hsym) w hw (classInjB_sound hinj) hroot hdry hflat
+    ncls hcls store fuel hf
+
 /-- the general statement for lazily expanded graphs, NOT proved: `Explored g s` cannot be dropped from
 `reachable_loop_terminates` as it stands (`unexplored_orphan_spins` below).  What is missing: while flat nodes are
 unexplored the loop postpones cleanups by jumping back to the root without dropping anything; that phase ends because
@@ -442,6 +459,13 @@ example := preparsed_resume_within_bound gTwo (by decide) (by decide) (by decide
 example := reachable_loop_terminates gTwo _ (I2N.Trav.Term.rankedB_sound (by decide)) (edgeSymB_sound (by decide)) 2 []
   (by decide) _ (.step _ 0 ⟨none, 0⟩ 9 (.init []) (by decide) (by decide)) (I2N.Trav.Term.explored_of_noFlat (by decide) _)
   0 [] 100000 (by decide)
+
+/-- the diamond, with its root made a dry-run node too, meets the hypotheses of `dry_run_terminates` -/
+def gDiaDry : Graph :=
+  { gDia with nodes := gDia.nodes.map (fun nd => { nd with dryRun := true }) }
+
+example := dry_run_terminates gDiaDry (by decide) (by decide) (by decide) 0 (by decide) (by decide) (by decide) (by decide)
+  5 (by decide) [] 100000 (by decide)
 
 /-- Necessity of acyclicity (model level; real graphs are acyclic by construction): on a graph with a cycle `a ⇄ b`
 the worker pushes parents for ever — the loop does run out of fuel. -/
